@@ -11,6 +11,7 @@ import json
 import time
 from .. import core
 from . import _c10_extra
+from . import _gen
 
 PREF = 1024
 OPNAMES = ["add8", "max8", "xor8", "min8", "add64"]
@@ -394,6 +395,7 @@ CORPUS += _hold_sessions()
 def run(ctx):
     rng = ctx.rng
     quick = ctx.tier == "quick"
+    _gen.regen(ctx, ["Sinc"])      # Gen/Sinc.v regenerated from the source + Properties_Gen_C10.v (tools/ctrans.py)
     pr = ctx.coq_properties("Properties/Properties_C10.v")
     ok, log = ctx.coq_make(["theories/Sinc/Extract.vo"])
     if not ok:
@@ -566,6 +568,8 @@ def replay(ctx, path):
     cfg = case.get("config", [1, 1]) if isinstance(case, dict) else [1, 1]
     if not lines:
         return run(ctx)
+    if isinstance(case, dict) and case.get("harness") == "c10_extra":
+        return _c10_extra.replay_extra(ctx, case)
     exe = ctx.link("c10_sinc", ["c10_sinc.c"], exclude=["sincs/donecount.c"])
     res = run_impl(exe, [lines], core.qenv(cfg[0], cfg[1], stack=65536, MALLOC_PERTURB_=165), 600, ctx.notes, watchdog=60)
     print("\n".join(res[0][-15:]))
